@@ -15,7 +15,7 @@ LEAF_SHAPES = [(), (1,), (2,), (3,), (2, 3), (1, 2), (3, 1), (2, 1, 2), (2, 2, 1
 DT = {"float64": torch.float64, "float32": torch.float32}
 
 UNARY = ["sin", "tanh", "square", "relu", "abs", "expm", "softplus", "neg", "scale", "sigmoid", "lrelu", "addc",
-         "mulc"]
+         "mulc", "pyfunc"]
 SHAPE_OPS = ["flatten", "t", "expand2", "stride2", "cumsum0", "softmax", "sumdim", "sumall", "meanall", "unsq"]
 BINARY = ["add", "mul", "sub", "outer", "catflat", "dot"]
 OTHER = ["matc", "unbind", "split", "detach", "const"]
@@ -144,6 +144,8 @@ def apply_op(node: dict, a: list, dtype):
         return x.reshape(node["shape"])
     if op == "hostile":
         return VmapHostile.apply(x)
+    if op == "pyfunc":
+        return PyFunc.apply(x)
     raise KeyError(op)
 
 
@@ -158,6 +160,21 @@ class VmapHostile(torch.autograd.Function):
     def backward(ctx, g):
         _ = float(g.sum().item())  # data-dependent Python value: raises under vmap
         return g * 1.5
+
+
+class PyFunc(torch.autograd.Function):
+    """y = 1.25 sin(x) written as a user-defined autograd.Function (no vmap rule declared): its backward is ordinary tensor
+    code, so torch batches it like any built-in node. Graphs of real models contain such nodes (custom layers, module hooks)."""
+
+    @staticmethod
+    def forward(ctx, x):
+        ctx.save_for_backward(x)
+        return x.sin() * 1.25
+
+    @staticmethod
+    def backward(ctx, g):
+        (x,) = ctx.saved_tensors
+        return g * x.cos() * 1.25
 
 
 # ------------------------------------------------------------------------------------------------
